@@ -35,3 +35,21 @@ package fastq
 //@   loop 3 invariant 0 <= idx && idx <= len(line) && len(line) == len(seqBuff) && wfReader(r) && t != nil
 //@   loop 3 invariant fresh(seqBuff) || arr(seqBuff) == 0
 //@   loop 3 writes fresh
+
+//@ func (*Writer).writeHeader
+//@   property C01
+//@   requires w != nil && w.w != nil && s != nil
+//@   ensures [bytes] n == emitted(w.w) - old(emitted(w.w)) && w.w == old(w.w)
+//@   assigns emitted(w.w), fresh
+
+//@ func (*Writer).Write
+//@   property C01
+//@   requires w != nil && w.w != nil && s != nil
+//@   ensures [bytes] n == emitted(w.w) - old(emitted(w.w))
+//@   loop 1 invariant w != nil && w.w != nil && w.w == old(w.w) && i >= 0 && n == emitted(w.w) - old(emitted(w.w))
+//@   loop 2 invariant w != nil && w.w != nil && w.w == old(w.w) && i >= 0 && n == emitted(w.w) - old(emitted(w.w))
+
+// Encoding is an observer; a sequence reports one of the declared encodings.
+//@ func (Encoder).Encoding
+//@   pure
+//@   ensures -1 <= result && result <= 5
